@@ -1,0 +1,8 @@
+//go:build verif
+
+package event
+
+// VerifLen reports the number of current subscribers (verification harness only).
+func (e *Event[T]) VerifLen() int {
+	return len(e.subscribers)
+}
